@@ -69,7 +69,7 @@ $(OUT)/lib/%.o: $(SRC)/src/%.cc $(STAMP) | $(CFG) $(OUT)/cfg/revision.h
 
 $(OUT)/libmeddly.a: $(LIBOBJS)
 	@rm -f $@
-	ar rcsT $@ $(LIBOBJS)
+	@ar rcsT $@ $(LIBOBJS)
 
 # ---- harness -----------------------------------------------------------------------
 $(OUT)/hobj/%.o: $(VERIF)/harness/%.cc $(HHDRS) $(STAMP) | $(CFG)
